@@ -7,8 +7,8 @@ from concurrent.futures import ThreadPoolExecutor
 V = "/verif"
 # seed -> [(check, extra args)]; the property's own quick check first, then other checks expected to see it
 PLAN = {
-    "C01-1": [("C01", [])], "C01-2": [("C01", [])],
-    "C02-1": [("C02", []), ("C03", [])], "C02-2": [("C02", []), ("C01", ["--only", "seal_nonce"])],
+    "C01-1": [("C01", [])], "C01-2": [("C01", []), ("C07", [])],
+    "C02-1": [("C02", []), ("C03", [])], "C02-2": [("C02", [])],
     "C03-1": [("C03", [])], "C03-2": [("C03", [])],
     "C04-1": [("C04", [])], "C04-2": [("C04", [])],
     "C05-1": [("C05", [])], "C05-2": [("C05", [])],
